@@ -51,10 +51,14 @@ func NewSched(rc *RunCtx, quanta ...time.Duration) *Sched {
 }
 
 // Yield parks the calling goroutine until the scheduler releases it (no-op in passthrough mode).
-func (s *Sched) Yield(point string) {
+func (s *Sched) Yield(point string) { s.yield(point, false) }
+
+// yield with force parks also in passthrough mode: a task started with Go must not run a single step before the scheduler
+// releases it, whether or not Enable was called already (a goroutine that won the race against Enable used to run unscheduled).
+func (s *Sched) yield(point string, force bool) {
 	s.mu.Lock()
 	s.PointHits[point]++
-	if s.passthrough {
+	if s.passthrough && !force {
 		s.mu.Unlock()
 		return
 	}
@@ -87,7 +91,7 @@ func (s *Sched) Go(name string, f func()) {
 			delete(s.names, gid)
 			s.mu.Unlock()
 		}()
-		s.Yield("start")
+		s.yield("start", true)
 		f()
 	}()
 }
